@@ -20,6 +20,7 @@ from ..paths import enum_paths, canon_test
 from .. import relang, tmpl
 from . import emit
 from .c19 import tag_loop, tag_regex_info, key_group_items
+from ..core import same_func
 from .common import key_of, gaf_schema
 
 META = {
@@ -220,6 +221,8 @@ def fold_str(ctx, f, e, depth=0):
 
 def r16_2(ctx, pf, loop):
     it = loop.iter
+    if getattr(pf, "optional_arg", None) is not None and isinstance(it, ast.Name):
+        it = pf.optional_arg  # the loop is in a helper: what the parser hands it
     ok = isinstance(it, ast.Subscript) and isinstance(it.slice, ast.Slice) and const_value(it.slice.lower) == 12 and it.slice.upper is None and it.slice.step is None
     ctx.check(ok, "R16.2", pf.where(loop), "the tag loop scans the optional columns only (fields[12:]), so a read name or path shaped like a tag is never re-emitted as a field", key_of(pf, f"tag-loop-iter:{norm(it)}"), iter=norm(it))
 
@@ -240,7 +243,9 @@ def r16_3_6(ctx, pf, loop, info):
     # stored value must be the captured value itself
     for st in stores:
         ctx.check(norm(st.value) == vv, "R16.4", pf.where(st), "the value stored for a tag is the captured value, unmodified", key_of(pf, f"store-value:{norm(st.value)}"), stored=norm(st.value))
-    match_vars = {norm(st.targets[0]) for st in walk_stmts(loop.body) if isinstance(st, ast.Assign) and isinstance(st.value, ast.Call) and norm(st.value.func).startswith("re.")}
+    from .c19 import _is_regex_call
+
+    match_vars = {norm(st.targets[0]) for st in walk_stmts(loop.body) if isinstance(st, ast.Assign) and _is_regex_call(st.value, pf.module)}
     drops = {}
     for p in paths:
         matched = True
@@ -277,7 +282,7 @@ def r16_3_6(ctx, pf, loop, info):
             if rep_reported:
                 continue
             rep_reported = True
-            ctx.violated("R16.3", pf.where(loop), "a repeated tag is dropped: the mapping is keyed by TAG:TYPE: and only the first occurrence is kept", key_of(pf, "repeated-tag-first-wins"), path=p.show())
+            ctx.violated("R16.3", pf.where(loop), "a repeated tag is dropped: the mapping is keyed by TAG:TYPE: and only the first occurrence is kept", "gaftools.gaf::optional-field-parser::repeated-tag-first-wins", path=p.show())
             continue
         ctx.violated("R16.6", pf.where(loop), f"a well-formed optional field is silently dropped under {[(s, sp) for s, sp in rs]}", key_of(pf, f"drop:{rs}"), path=p.show())
     ctx.check(ds_seen, "R16.6", pf.where(loop), "the documented ds:Z: exception is an explicit filter on the literal key (not an accident of the value pattern)", key_of(pf, "ds-explicit"))
@@ -342,6 +347,11 @@ def r16_5(ctx, extras, schema):
         if f.qualname == "GAF.parse_gaf_line":
             continue
         recs = record_params(f, schema) | ({"self"} if f.cls == extras["class"] else set())
+        if f.module.name not in ("gaftools.gfa", "gaftools.cli.order_gfa", "gaftools.utils"):
+            # helpers that receive a parsed record and touch only its fields (e.g. a shared 'append the tags' helper)
+            for p_ in f.params:
+                if any(isinstance(x, ast.Attribute) and isinstance(x.value, ast.Name) and x.value.id == p_ and x.attr == extras["cigar_attr"] for x in walk_own(f.node)):
+                    recs.add(p_)
         if not recs:
             continue
         allowed_bases = {f"{r}.{tags_attr}" for r in recs}
@@ -377,6 +387,7 @@ def r16_5(ctx, extras, schema):
                 from .c09 import guards_of
 
                 g = guards_of(f.node, st)
+                # a helper's boolean parameter in the guard is not evidence, the key test is
                 ev = False
                 for tt, pol in g:
                     for sub in conj(tt) if pol else []:
@@ -386,7 +397,7 @@ def r16_5(ctx, extras, schema):
                         if s == f"'{key}' in {rec}.{tags_attr}":
                             ev = True
                 ctx.check(ev, "R16.5", f.where(st), f"`{norm(t)}` is rewritten only when the record had that field (no invented optional field)", key_of(f, f"tags-store:{norm(st)[:80]}:{[norm(x) for x, _ in g]}"), guards=[(norm(x), pol) for x, pol in g])
-    ctx.require_count("R16.5", n, 3, "gaftools/", "stores into a parsed record's tag mapping outside the parser")
+    ctx.require_count("R16.5", n, 2, "gaftools/", "stores into a parsed record's tag mapping outside the parser")
 
 
 def conj(t):
@@ -405,7 +416,7 @@ def r16_7(ctx, schema, extras):
         raise AnalysisError("R16.7", "gaftools/gaf.py", "the parsed record has no __str__ (view prints records through it)")
     ctx.analysed_func(f)
     _, _, ems = emit.find_emitters(ctx, "R16.7")
-    mine = [(ff, rec, n) for ff, rec, n in ems if ff is f]
+    mine = [(ff, rec, n) for ff, rec, n in ems if same_func(ff, f)]
     ctx.require_count("R16.7", len(mine), 1, f.where(), "12-column template in the record's __str__")
     ff, rec, n = mine[0]
     st, var, handle, region, out = emit.templates_of(ctx, ff, rec, n, extras["tags_attr"], "R16.7")
